@@ -8,10 +8,19 @@ use std::collections::BTreeMap;
 use std::fmt::Write as _;
 use std::io::Write as _;
 
+use rs_matter::crypto::{test_only_crypto, Aead, CanonAeadKey, Crypto, AEAD_NONCE_ZEROED};
+use rs_matter::dm::devices::test::{TEST_DEV_ATT, TEST_DEV_COMM, TEST_DEV_DET};
 use rs_matter::error::ErrorCode;
+use rs_matter::fabric::GroupKeyMapping;
+use rs_matter::group_keys::{GroupEpochKeyEntry, GroupKeySet, KeySet};
 use rs_matter::transport::network::Address;
 use rs_matter::transport::packet::PacketHdr;
-use rs_matter::transport::session::{Session, SessionMode};
+use rs_matter::transport::plain_hdr::PlainHdr;
+use rs_matter::transport::proto_hdr::ProtoHdr;
+use rs_matter::transport::session::{derive_group_session_id, Session, SessionMode};
+use rs_matter::transport::TransportRunner;
+use rs_matter::utils::storage::WriteBuf;
+use rs_matter::Matter;
 use rs_matter::transport::verif_hooks::{GroupCtrStore, RxCtrState};
 use rsm_harness::{Digest, Rng};
 
@@ -26,6 +35,140 @@ fn fresh_session_rx() -> RxCtrState {
 fn rx_str(s: &RxCtrState) -> String {
     let (synced, m, b) = s.verif_raw();
     format!("{} {} {}", synced as u8, m, b)
+}
+
+// ------------------------------------------------------------------ Y: the real group receive path
+//
+// A node with one fabric and one group key receives group data messages from several senders
+// through `TransportRunner::decode_packet`: authentic ones (`a`), and forged ones that carry the
+// right header (group session id, source node id, counter) but do not authenticate - a garbage
+// body (`f`), an authentic message with one ciphertext bit flipped (`t`), a message sealed under
+// another key (`w`). The group sender table must be moved by authentic messages only.
+
+const Y_EPOCH_KEY: [u8; 16] = [0x11; 16];
+const Y_OTHER_KEY: [u8; 16] = [0x22; 16];
+const Y_GROUP: u16 = 0x0101;
+
+fn y_canon(bytes: &[u8; 16]) -> CanonAeadKey {
+    let mut k = CanonAeadKey::new();
+    k.load_from_array(bytes);
+    k
+}
+
+fn y_op_key<C: Crypto>(crypto: &C, epoch: &[u8; 16]) -> [u8; 16] {
+    let mut ks = KeySet::new();
+    ks.update(crypto, y_canon(epoch).reference(), &0u64).unwrap();
+    let mut out = [0u8; 16];
+    out.copy_from_slice(ks.op_key().access());
+    out
+}
+
+fn y_seal<C: Crypto>(crypto: &C, key: &[u8; 16], node: u64, hdr: &PacketHdr, payload: &[u8]) -> Vec<u8> {
+    let mut buf = [0u8; 64];
+    let mut wb = WriteBuf::new(&mut buf);
+    hdr.plain.encode(&mut wb).unwrap();
+    let aad = wb.as_slice().to_vec();
+    let mut buf2 = [0u8; 64];
+    let mut wb2 = WriteBuf::new(&mut buf2);
+    hdr.proto.encode(&mut wb2).unwrap();
+    let mut pt = wb2.as_slice().to_vec();
+    pt.extend_from_slice(payload);
+    let (_, _, sec, ctr, _, _) = hdr.plain.verif_raw();
+    let mut nonce = vec![sec];
+    nonce.extend_from_slice(&ctr.to_le_bytes());
+    nonce.extend_from_slice(&node.to_le_bytes());
+    let mut iv = AEAD_NONCE_ZEROED;
+    iv.access_mut().copy_from_slice(&nonce);
+    let n = pt.len();
+    let mut data = pt;
+    data.extend_from_slice(&[0u8; 16]);
+    let mut aead = crypto.aead().unwrap();
+    let ct = aead.encrypt_in_place(y_canon(key).reference(), iv.reference(), &aad, &mut data, n).unwrap().to_vec();
+    let mut wire = aad;
+    wire.extend_from_slice(&ct);
+    wire
+}
+
+fn run_y(ops: &str) -> String {
+    let crypto = test_only_crypto();
+    let matter: &'static Matter<'static> = Box::leak(Box::new(Matter::new(&TEST_DEV_DET, TEST_DEV_COMM, &TEST_DEV_ATT, 5540)));
+    matter.with_state(|state| {
+        state.fabrics.add_with_post_init(|_| Ok(())).unwrap();
+        let fabric = state.fabrics.fabric_mut(core::num::NonZeroU8::new(1).unwrap()).unwrap();
+        let mut epoch_keys = rs_matter::utils::storage::Vec::new();
+        epoch_keys
+            .push(GroupEpochKeyEntry { epoch_key: y_canon(&Y_EPOCH_KEY), epoch_start_time: 0 })
+            .map_err(|_| ())
+            .unwrap();
+        fabric
+            .groups_mut()
+            .key_set_add(GroupKeySet { group_key_set_id: 100, group_key_security_policy: 0, epoch_keys })
+            .unwrap();
+        fabric.groups_mut().key_map_add(GroupKeyMapping { group_id: Y_GROUP, group_key_set_id: 100 }).unwrap();
+    });
+    let op_key = y_op_key(&crypto, &Y_EPOCH_KEY);
+    let other_key = y_op_key(&crypto, &Y_OTHER_KEY);
+    let gsid = derive_group_session_id(&crypto, y_canon(&op_key).reference()).unwrap();
+    let from = Address::Udp(std::net::SocketAddr::V6(std::net::SocketAddrV6::new(
+        std::net::Ipv6Addr::new(0xfe80, 0, 0, 0, 0, 0, 0, 0x0a),
+        5541,
+        0,
+        0,
+    )));
+    let runner = TransportRunner::new(matter, &crypto);
+    let payload = [0x15u8, 0x28, 0x00, 0x28, 0x01, 0x18];
+    let mut flags = String::new();
+    for (i, op) in ops.split(',').filter(|x| !x.is_empty()).enumerate() {
+        let p: Vec<&str> = op.split(':').collect();
+        let node: u64 = p[1].parse().unwrap();
+        let ctr: u32 = p[2].parse().unwrap();
+        let mut hdr = PacketHdr::new();
+        hdr.plain = PlainHdr::verif_from_raw(0, gsid, 0x01, ctr, 0, 0).unwrap();
+        hdr.plain.set_src_nodeid(Some(node));
+        hdr.plain.set_dst_groupcast_nodeid(Some(Y_GROUP));
+        hdr.proto = ProtoHdr::verif_from_raw(80 + i as u16, 0x01, 1, 8, 0, 0).unwrap();
+        let mut wire = match p[0] {
+            "w" => y_seal(&crypto, &other_key, node, &hdr, &payload),
+            _ => y_seal(&crypto, &op_key, node, &hdr, &payload),
+        };
+        match p[0] {
+            "f" => {
+                // the right header, a body that is not a sealing of anything
+                let hl = wire.len() - (6 + payload.len() + 16);
+                for (j, b) in wire[hl..].iter_mut().enumerate() {
+                    *b = 0xa5 ^ (j as u8);
+                }
+            }
+            "t" => {
+                let hl = wire.len() - (6 + payload.len() + 16);
+                wire[hl + (ctr as usize % (6 + payload.len() + 16))] ^= 0x10;
+            }
+            _ => {}
+        }
+        let mut pl = [0u8; 64];
+        let (res, _, _) = runner.verif_decode_packet(from, &wire, &mut pl);
+        flags.push(match res {
+            Ok(_) => '1',
+            Err(e) if e.code() == ErrorCode::Duplicate => '0',
+            Err(_) => 'x',
+        });
+        // the handler is done with the message at once: the ephemeral session of the sender goes
+        matter.with_state(|state| {
+            let sessions = state.verif_sessions();
+            let ids: Vec<u32> = sessions.iter().map(|s| s.id()).collect();
+            for id in ids {
+                sessions.remove(id);
+            }
+        });
+    }
+    let mut ents = Vec::new();
+    let clock = matter.with_state(|state| {
+        state.verif_sessions().verif_group_ctr_store().verif_for_each(|f, n, m, b, l| {
+            ents.push(format!("{}:{}:{}:{}:{}", f, n, m, b, l));
+        })
+    });
+    ents.sort();
+    format!("{} {} {}", flags, clock, ents.join(";"))
 }
 
 fn run_line(line: &str, out: &mut String) {
@@ -122,6 +265,7 @@ fn run_line(line: &str, out: &mut String) {
             }
             writeln!(out, "S {} {:016x}", id, d.0).unwrap();
         }
+        "Y" => writeln!(out, "Y {} {}", f[1], run_y(f[2])).unwrap(),
         "G" => {
             let (id, ops) = (f[1], f[2]);
             let mut st = GroupCtrStore::new();
@@ -340,6 +484,48 @@ fn generate(tier: &str, seed: u64) -> (Vec<String>, BTreeMap<&'static str, u64>)
             ops.push(format!("{}:{}:{}", fab, node, c));
         }
         cases.push(format!("G {} {}", next_id(), ops.join(",")));
+    }
+
+    // --- the real group receive path: authentic and forged group messages of up to three senders
+    for n in 0..(if thorough { 1500 } else { 250 }) {
+        let nsend = rng.range(1, 3) as usize;
+        let mut ctrs: Vec<u64> = (0..nsend).map(|_| if rng.chance(1, 4) { *rng.pick(&EDGES) } else { rng.below(1 << 30) }).collect();
+        let mut ops = Vec::new();
+        let len = rng.range(2, 14);
+        for _ in 0..len {
+            let s = rng.below(nsend as u64) as usize;
+            let node = 7000 + s as u64;
+            let kind = rng.below(10);
+            if kind < 6 {
+                // authentic: next, small jump, behind, repeat
+                let c = match rng.below(6) {
+                    0 | 1 => ctrs[s].wrapping_add(1),
+                    2 => ctrs[s].wrapping_add(rng.range(2, 20)),
+                    3 => ctrs[s].wrapping_sub(rng.range(1, 18)),
+                    4 => ctrs[s],
+                    _ => ctrs[s].wrapping_add(rng.range(15, 40)),
+                } & 0xffff_ffff;
+                if c.wrapping_sub(ctrs[s]) & 0xffff_ffff < 0x8000_0000 {
+                    ctrs[s] = c;
+                }
+                ops.push(format!("a:{}:{}", node, c));
+            } else {
+                // forged: the counter the sender will use next, far ahead (window poisoning), or one already used
+                let c = match rng.below(4) {
+                    0 | 1 => ctrs[s].wrapping_add(1),
+                    2 => ctrs[s].wrapping_add(rng.range(16, 100_000)),
+                    _ => ctrs[s],
+                } & 0xffff_ffff;
+                ops.push(format!("{}:{}:{}", *rng.pick(&["f", "t", "w"]), node, c));
+            }
+        }
+        // a forged first message of a sender never seen, then its authentic first message
+        if n % 5 == 0 {
+            ops.push("f:7900:500".to_string());
+            ops.push("a:7900:480".to_string());
+            ops.push("a:7900:500".to_string());
+        }
+        cases.push(format!("Y {} {}", next_id(), ops.join(",")));
     }
 
     // --- exhaustive one-step sweep: all 2^16 bitmaps per (max, enc, roll, offset)
